@@ -241,6 +241,9 @@ pub fn exec_caught<E: Engine>(e: &E, sc: &E::Sc, stats: &mut Stats) -> Option<(V
     crate::keys::set_style(0);
     let r = exec_caught_inner(e, sc, stats);
     stats.inc(&format!("runs_with_keys_{}", crate::keys::kind_name()));
+    if crate::keys::coarse_modulus() > 0 {
+        stats.inc("runs_with_a_key_type_whose_lawful_hash_collides");
+    }
     if crate::keys::nodes_born_elsewhere() {
         stats.inc("runs_with_nodes_created_on_threads_of_their_own_where_sync");
     }
